@@ -146,15 +146,16 @@ def check_program(corpus, mod_ast, prog, sc, rng, V=3, features=None):
         # the encoding gives up (rows pile up beyond its multiplicity bound).  Last resort: a few random databases
         # on the real build against the reference model; a reproduced problem there is reported as a violation,
         # otherwise the job stays inconclusive
-        if sc.kind in ("run", "rerun", "idem") and getattr(sc, "A", None) is not None:
+        if sc.kind in ("run", "rerun", "idem", "timeout") and getattr(sc, "A", None) is not None:
             for _i in range(6):
                 dbA = sc.A.random_db(rng, density=rng.choice([0.3, 0.5, 0.7]))
-                lines = sc.script_lines(prog, dbA, None, [])
+                ks = [rng.randrange(1, 5), rng.randrange(0, 4)] if sc.kind == "timeout" else []
+                lines = sc.script_lines(prog, dbA, None, ks)
                 rec = replay(corpus, prog, sc, lines, dbA, None, "duplicate")
                 if rec["problems"]:
                     rec["query"] = "random database after the encoding's multiplicity bound overflowed"
                     out.cex = {"query": rec["query"], "kind": rec["problems"][0][0], "inputs": {k: [rust_repr(t) for t in v] for k, v in dbA.items()},
-                               "pushed": None, "deadline_checks": []}
+                               "pushed": None, "deadline_checks": ks}
                     out.replay = rec
                     out.cexes.append((out.cex, rec))
                     out.status = "violation"
